@@ -113,8 +113,10 @@ impl XRefTable {
                 let should_be_updated = match *dst {
                     XRef::Raw { gen_nr: gen, .. } | XRef::Free { gen_nr: gen, .. }
                         => entry.get_gen_nr() > gen,
-                    XRef::Stream { .. } | XRef::Invalid
-                        => true,
+                    // sections are merged newest first: an entry for an object in an object stream
+                    // (always generation 0) was set by a newer section and must be kept
+                    XRef::Stream { .. } => false,
+                    XRef::Invalid => true,
                     x => bail!("found {:?}", x)
                 };
                 if should_be_updated {
